@@ -698,6 +698,16 @@ def rawstack_kind_only_in_callee(m):
     return False
 
 
+def temp_section_over_levels(m):
+    """
+    True if some kernel assigns a temporary as ``t(start:end, :)`` (init block in array notation with a colon in the second
+    dimension): a section that is not contiguous in memory unless start:end is the whole first dimension
+    """
+    import re
+    rng = re.escape(f'{m["ns"]["start"]}:{m["ns"]["end"]}, :')
+    return any(re.search(rf'\b{re.escape(t["name"])}\({rng}', str(k['body'])) for k in m['kernels'] for t in k['temps'])
+
+
 def _mentions(stmt, name):
     import re
     return re.search(rf'\b{name}\b', str(stmt)) is not None
